@@ -286,8 +286,19 @@ func (r *run) runFaults() {
 	for k := 0; k < nMulti && len(singles) > 1; k++ {
 		n := 2 + t.Draw(core.Fault, 2)
 		var fs []fault
+		usedID := map[string]bool{}
 		for x := 0; x < n; x++ {
-			fs = append(fs, singles[t.Draw(core.Fault, len(singles))])
+			f := singles[t.Draw(core.Fault, len(singles))]
+			if f.ID != "" {
+				// two payloads given the same schema id would be fed to one
+				// reader: bytes of different sub-streams spliced together,
+				// which is outside the property's domain
+				if usedID[f.ID] {
+					continue
+				}
+				usedID[f.ID] = true
+			}
+			fs = append(fs, f)
 		}
 		trial(fs)
 		r.probe("multi_fault_trials")
